@@ -28,6 +28,15 @@ TAG_MAP.update(
      univ.Real.tagSet: RealPayloadDecoder()}
 )
 
+# DER prohibits the constructed encoding form for all string types,
+# the character string and time types included (X.690, 10.2)
+for tagSet, typeDecoder in list(TAG_MAP.items()):
+    if (isinstance(typeDecoder, decoder.OctetStringPayloadDecoder) and
+            typeDecoder.supportConstructedForm):
+        TAG_MAP[tagSet] = type(
+            typeDecoder.__class__.__name__, (typeDecoder.__class__,),
+            {'supportConstructedForm': False})()
+
 TYPE_MAP = decoder.TYPE_MAP.copy()
 
 # Put in non-ambiguous types for faster codec lookup. The inherited map
